@@ -82,6 +82,18 @@ def r16_1(ctx):
                      "one shared selection, kept when listed / when not listed" if ea == eb and nega != negb else "%s  ||  %s" % (a[:200], b[:200]))
                 filts = []
         if len(filts) == 2:
+            # `E` and `!E` wholesale (one shared selection, negated as a whole)
+            def unbang(t):
+                if t.startswith("!"):
+                    u = t[1:].strip()
+                    if u.startswith("(") and u.endswith(")"):
+                        u = u[1:-1]
+                    return u
+                return None
+            if (unbang(a) is not None and unbang(a) == b) or (unbang(b) is not None and unbang(b) == a):
+                r.ob("Pick and Omit filters are exact negations (including default arms)", True, C.mloc(tr, filts[1]), "one shared selection E, the other filter is !E")
+                filts = []
+        if len(filts) == 2:
             # one must be the negation of the other
             na = a.replace("!", "")
             nb = b.replace("!", "")
